@@ -1,7 +1,7 @@
 use std::cmp::Ordering;
 use std::fmt::Display;
 
-use rusty_bit_vec::{MIN_INTEGER, MIN_LONG};
+use rusty_bit_vec::{MAX_INTEGER, MAX_LONG, MIN_INTEGER, MIN_LONG};
 
 use crate::fit::FitToType;
 use crate::{UserDefinedTypeValue, VArray, qb_and, qb_or};
@@ -104,6 +104,24 @@ macro_rules! div {
 }
 
 // TODO implement standard operators with panics, let the linter guarantee the type compatibility
+
+/// The result of an INTEGER operation, which must stay an INTEGER.
+fn integer_or_overflow(n: i32) -> Result<Variant, VariantError> {
+    if (MIN_INTEGER..=MAX_INTEGER).contains(&n) {
+        Ok(Variant::VInteger(n))
+    } else {
+        Err(VariantError::Overflow)
+    }
+}
+
+/// The result of a LONG operation, which must stay a LONG.
+fn long_or_overflow(n: i64) -> Result<Variant, VariantError> {
+    if (MIN_LONG..=MAX_LONG).contains(&n) {
+        Ok(Variant::VLong(n))
+    } else {
+        Err(VariantError::Overflow)
+    }
+}
 
 impl Variant {
     pub fn try_cmp(&self, other: &Self) -> Result<Ordering, VariantError> {
@@ -217,12 +235,12 @@ impl Variant {
                 _ => Err(VariantError::TypeMismatch),
             },
             Self::VInteger(i_left) => match other {
-                Self::VInteger(i_right) => Ok(Self::VInteger(i_left + i_right)),
-                Self::VLong(l_right) => Ok(Self::VLong(i_left as i64 + l_right)),
+                Self::VInteger(i_right) => integer_or_overflow(i_left + i_right),
+                Self::VLong(l_right) => long_or_overflow(i_left as i64 + l_right),
                 _ => other.plus(self),
             },
             Self::VLong(l_left) => match other {
-                Self::VLong(l_right) => Ok(Self::VLong(l_left + l_right)),
+                Self::VLong(l_right) => long_or_overflow(l_left + l_right),
                 _ => other.plus(self),
             },
             _ => Err(VariantError::TypeMismatch),
@@ -245,12 +263,12 @@ impl Variant {
                 _ => other.minus(self).and_then(|x| x.negate()),
             },
             Self::VInteger(i_left) => match other {
-                Self::VInteger(i_right) => Ok(Self::VInteger(i_left - i_right)),
-                Self::VLong(l_right) => Ok(Self::VLong(i_left as i64 - l_right)),
+                Self::VInteger(i_right) => integer_or_overflow(i_left - i_right),
+                Self::VLong(l_right) => long_or_overflow(i_left as i64 - l_right),
                 _ => other.minus(self).and_then(|x| x.negate()),
             },
             Self::VLong(l_left) => match other {
-                Self::VLong(l_right) => Ok(Self::VLong(l_left - l_right)),
+                Self::VLong(l_right) => long_or_overflow(l_left - l_right),
                 _ => other.minus(self).and_then(|x| x.negate()),
             },
             _ => Err(VariantError::TypeMismatch),
@@ -273,12 +291,12 @@ impl Variant {
                 _ => other.multiply(self),
             },
             Self::VInteger(i_left) => match other {
-                Self::VInteger(i_right) => Ok(Self::VInteger(i_left * i_right)),
-                Self::VLong(l_right) => Ok(Self::VLong(i_left as i64 * l_right)),
+                Self::VInteger(i_right) => integer_or_overflow(i_left * i_right),
+                Self::VLong(l_right) => long_or_overflow(i_left as i64 * l_right),
                 _ => other.multiply(self),
             },
             Self::VLong(l_left) => match other {
-                Self::VLong(l_right) => Ok(Self::VLong(l_left * l_right)),
+                Self::VLong(l_right) => long_or_overflow(l_left * l_right),
                 _ => other.multiply(self),
             },
             _ => Err(VariantError::TypeMismatch),
